@@ -53,3 +53,92 @@ def tr_radius_setter(**inp):
         tr.radius *= tr._constants["decrease_resolution_factor"]
     ok = rf <= tr._resolution <= tr._radius
     return {"reproduced": not ok, "observed": {"resolution": tr._resolution, "radius": tr._radius}}
+
+
+# ---- C19 ------------------------------------------------------------------------------------------
+_OPT_KINDS = {"disp": "b", "maxfev": "i", "maxiter": "i", "target": "f", "feasibility_tol": "f", "radius_init": "f",
+              "radius_final": "f", "nb_points": "i", "scale": "b", "filter_size": "i", "store_history": "b",
+              "history_size": "i", "debug": "b"}
+
+
+def set_default_options(**inp):
+    import warnings
+    from cobyqa.main import _set_default_options
+    n = int(inp["n"])
+    opts = {}
+    for k, kind in _OPT_KINDS.items():
+        if inp.get("has_" + k):
+            v = inp[k]
+            opts[k] = bool(v) if kind == "b" else (int(v) if kind == "i" else F(v))
+    if inp.get("has_unknown"):
+        opts["vcx_unknown_key"] = 1
+    supplied = dict(opts)
+    g = supplied.get
+    bad = (("radius_init" in supplied and g("radius_init") <= 0) or ("radius_final" in supplied and g("radius_final") < 0)
+           or ("radius_init" in supplied and "radius_final" in supplied and g("radius_init") < g("radius_final"))
+           or ("nb_points" in supplied and not (n + 1 <= g("nb_points") <= ((n + 1) * (n + 2)) // 2))
+           or ("maxfev" in supplied and g("maxfev") <= 0) or ("maxiter" in supplied and g("maxiter") <= 0))
+    raised = False
+    with warnings.catch_warnings(record=True) as w:
+        warnings.simplefilter("always")
+        try:
+            _set_default_options(opts, n)
+        except ValueError:
+            raised = True
+    problems = []
+    if raised != bad:
+        problems.append(f"ValueError raised={raised} but a documented restriction is violated={bad}")
+    if not raised:
+        if not (opts["radius_init"] > 0 and 0 <= opts["radius_final"] <= opts["radius_init"]
+                and n + 1 <= opts["nb_points"] <= ((n + 1) * (n + 2)) // 2
+                and (opts["maxfev"] >= 1 or (n == 0 and "maxfev" not in supplied))
+                and (opts["maxiter"] >= 1 or (n == 0 and "maxiter" not in supplied))):
+            problems.append("completed options violate a documented relation")
+        nw = sum(1 for x in w if issubclass(x.category, RuntimeWarning))
+        if nw != (1 if inp.get("has_unknown") else 0):
+            problems.append(f"{nw} RuntimeWarnings for unknown={bool(inp.get('has_unknown'))}")
+    return {"reproduced": bool(problems), "observed": {"supplied": supplied, "n": n, "raised": raised,
+                                                        "completed": {k: opts.get(k) for k in _OPT_KINDS} if not raised else None},
+            "problems": problems}
+
+
+def set_default_constants(**inp):
+    import warnings
+    from cobyqa.main import _set_default_constants
+    from cobyqa.settings import DEFAULT_CONSTANTS
+    from contracts.spec_plain import CONST_DOMAINS, CONST_RELATIONS
+    kw = {}
+    for k in DEFAULT_CONSTANTS:
+        if inp.get("has_" + k):
+            kw[k] = bool(inp[k]) if isinstance(DEFAULT_CONSTANTS[k], bool) else F(inp[k])
+
+    def indom(k, v):
+        kind, lo, los, hi, his = CONST_DOMAINS[k]
+        if kind == "b":
+            return True
+        ok = math.isfinite(v)
+        if lo is not None:
+            ok = ok and (v > lo if los else v >= lo)
+        if hi is not None:
+            ok = ok and (v < hi if his else v <= hi)
+        return ok
+
+    def rel(d, r):
+        a, op, b = r
+        return d[a] < d[b] if op == "<" else d[a] <= d[b]
+    bad = any(not indom(k, v) for k, v in kw.items()) or any(a in kw and b in kw and not rel(kw, (a, op, b)) for a, op, b in CONST_RELATIONS)
+    raised = False
+    out = None
+    with warnings.catch_warnings(record=True):
+        warnings.simplefilter("always")
+        try:
+            out = _set_default_constants(**kw)
+        except ValueError:
+            raised = True
+    problems = []
+    if raised != bad:
+        problems.append(f"ValueError raised={raised} but a documented restriction is violated={bad}")
+    if out is not None:
+        if not all(indom(k, out[k]) for k in CONST_DOMAINS) or not all(rel(out, r) for r in CONST_RELATIONS):
+            problems.append("completed constants violate a documented domain/relation")
+    return {"reproduced": bool(problems), "observed": {"supplied": kw, "raised": raised, "completed": out}, "problems": problems}
